@@ -195,13 +195,25 @@ Theorem C05_branch_flat_closings_nobrace : forall fo l, g2segs_ok fo l = true ->
 Proof. exact reader_sim_g2_nobrace. Qed.
 (** BOUNDED coverage of the side condition: on the complete enumerated list, every well-formed AST outside the three
     open classes whose multiplied branches are simple chains satisfies [units_ok] (so the unbounded theorem applies to
-    it); [units_ok] also holds for 100 enumerated ASTs that the (coarser) class predicate stale_recipe flags *)
+    it); [units_ok] also holds for 100 enumerated ASTs that the coarser AST predicate cls_stale_recipe flags -
+    class_C05 no longer does *)
 Theorem C05_units_cover_small :
   forallb (fun a => negb (wf fo_none a && Nat.eqb (class_C05 true a) 0 && negb (nonsimple_mult a)) || units_ok fo_none a) small_c05 = true.
 Proof. exact C05_units_cover_small_list. Qed.
 Theorem C05_units_cover_small_not_vacuous :
   (2000 <=? length (filter (fun a => wf fo_none a && units_ok fo_none a && has_branch_mult a) small_c05))%nat = true.
 Proof. exact C05_units_cover_small_nonvacuous. Qed.
+(** the defect classes as the check numbers them ([ReaderCheck.class_C05]) are cut down to the complement of [units_ok]:
+    an AST that satisfies it is in no class.  BOUNDED exactness: every enumerated well-formed AST that is in a class is
+    NOT read as its longhand with the identical numbering (24 ASTs in stale_recipe, 843 in nested_in_unit), so on the
+    list no class hides an input on which the reader is right *)
+Theorem C05_classes_exact_small :
+  forallb (fun a => negb (wf fo_none a) || Nat.eqb (class_C05 true a) 0 || negb (Nat.eqb (model_C05 fo_none true a None) 0)) small_c05 = true.
+Proof. exact C05_classes_exact_small_list. Qed.
+Theorem C05_classes_exact_small_not_vacuous :
+  (length (filter (fun a => wf fo_none a && Nat.eqb (class_C05 true a) 10) small_c05),
+   length (filter (fun a => wf fo_none a && Nat.eqb (class_C05 true a) 5) small_c05)) = (24%nat, 843%nat).
+Proof. exact C05_classes_exact_small_counts. Qed.
 (** non-vacuity: a multiplied branch inside a branch, behind a sibling branch, directly followed by ")", and a second
     one at top level behind a sibling branch *)
 Example C05_branch_ast_nonvacuous :
